@@ -704,7 +704,13 @@ def fold_programs(rng: random.Random, n: int):
         ("postfix_dead", "{ int32_t q = RsV; RddV = 0 ? q++ : RuuV; ReV = q; }"),
         ("postfix_dead2", "{ int32_t q = RsV; RddV = 1 ? RuuV : q--; ReV = q; }"),
         ("postfix_dead3", "{ int32_t q = 0; ReV = (0 ? q++ : RsV); }"),
+        # both arms value-producing operations, more such operations afterwards (temporaries keep their numbers and guards)
+        ("hyb_both0", "{ int32_t q = RsV; int32_t j = RtV; int32_t k = 7; ReV = ((0 != 0) ? q++ : j++) + k++; RddV = (int64_t) q * 65536 + j * 256 + k; }"),
+        ("hyb_both1", "{ int32_t q = RsV; int32_t j = RtV; int32_t k = 7; ReV = (1 ? q++ : j++) + k++; RddV = (int64_t) q * 65536 + j * 256 + k; }"),
+        ("hyb_calls", "{ int32_t q = RsV; ReV = (0 ? clz32(q) : clo32(q)) + clz32(RtV) * 64 + revbit32(q); }"),
+        ("hyb_then_se", "{ int32_t q = RsV; int32_t j = RtV; ReV = (0 ? q++ : j++); RxV = (RtV > 0) ? ({ q = q + 4; q; }) : j; RddV = (int64_t) q * 256 + j; }"),
+        ("hyb_nested", "{ int32_t q = RsV; int32_t j = RtV; ReV = (0 ? (1 ? q++ : j++) : (0 ? q-- : j--)) + q++; RddV = (int64_t) q * 256 + j; }"),
     ]
     for nm, text in dead:
-        T(f"dead;{nm}", text, [("q", "int32_t")] if "q =" in text else (), vk="dead:" + nm)
+        T(f"dead;{nm}", text, ([("q", "int32_t")] if "q =" in text else []) + ([("j", "int32_t")] if "j =" in text else []) + ([("k", "int32_t")] if "k =" in text else []), vk="dead:" + nm)
     return items
